@@ -14,6 +14,23 @@ FLAVOURS['sysalloc'] = {
     'bin': 'target/sysalloc/release/axv',
 }
 
+FLAVOURS['asan'] = {
+    # AddressSanitizer build of engine + harness (nightly, system allocator); any report aborts the worker
+    'cmd': ['cargo', 'build', '--release', '--offline', '--target', 'x86_64-unknown-linux-gnu', '--features', 'sysalloc', '--bin', 'axv', '--target-dir', '../target/asan'],
+    'env': {'RUSTFLAGS': '-Zsanitizer=address -Cforce-frame-pointers=yes'},
+    'bin': 'target/asan/x86_64-unknown-linux-gnu/release/axv',
+    # leak detection off: the harness leaks database handles on purpose (simulated process death)
+    'run_env': {'ASAN_OPTIONS': 'detect_leaks=0:abort_on_error=1:halt_on_error=1:allocator_may_return_null=1'},
+}
+
+FLAVOURS['tsan'] = {
+    # ThreadSanitizer build with an instrumented standard library (-Zbuild-std), so std / parking_lot synchronisation is understood
+    'cmd': ['cargo', 'build', '-Zbuild-std', '--release', '--offline', '--target', 'x86_64-unknown-linux-gnu', '--features', 'sysalloc', '--bin', 'axv', '--target-dir', '../target/tsan'],
+    'env': {'RUSTFLAGS': '-Zsanitizer=thread'},
+    'bin': 'target/tsan/x86_64-unknown-linux-gnu/release/axv',
+    'run_env': {'TSAN_OPTIONS': 'halt_on_error=1:exitcode=66:abort_on_error=0'},
+}
+
 EXPLORATION_ASSUMPTIONS = [
     'the reference model (harness/src/model.rs) is the SQL semantics the property refers to',
     'release-equivalent build (debug assertions and overflow checks off), feature verif on',
@@ -271,5 +288,28 @@ CHECKS['C14'] = {
     'level_text': '320 (quick) / 6400 (thorough) multi-threaded runs; every call must return, fail only for permitted reasons, and leave the acknowledged data. Writers + concurrent clients deadlock on the unchanged tree (open findings).',
     'level_note': 'A clean run is not freedom from races; loom / shuttle style exhaustive schedule exploration is a different technique family and is not used.',
 }
+
+
+def asan(n, **kw):
+    d = {'flavour': 'asan', 'shards': n, 'tier_override': 'quick', 'shard_offset': 100, 'timeout': 2400}
+    d.update(kw)
+    return d
+
+
+SAN_NOTE = ' AddressSanitizer leg: the same monitor on other seeds in an ASan build of engine + harness; any report (heap/stack overflow, use after free, ...) kills the worker and is reported with the declared intent.'
+for cid, q, t in [('C10', 2, 8), ('C17', 4, 16), ('C18', 2, 8), ('C19', 2, 8), ('C20', 4, 16)]:
+    CHECKS[cid]['legs']['quick'] = CHECKS[cid]['legs']['quick'] + [asan(q)]
+    CHECKS[cid]['legs']['thorough'] = CHECKS[cid]['legs']['thorough'] + [asan(t)]
+    CHECKS[cid]['technique'] += '; AddressSanitizer leg'
+    CHECKS[cid]['level_note'] += SAN_NOTE
+for cid, t in [('C16', 4), ('C05', 2), ('C08', 2), ('C11', 4)]:
+    CHECKS[cid]['legs']['thorough'] = CHECKS[cid]['legs']['thorough'] + [asan(t)]
+    CHECKS[cid]['technique'] += '; AddressSanitizer leg in the thorough tier'
+    CHECKS[cid]['level_note'] += SAN_NOTE
+CHECKS['C10']['legs']['thorough'] = CHECKS['C10']['legs']['thorough'] + [asan(16, args=['--atom', 'smallex'], shard_offset=0)]
+CHECKS['C14']['legs']['quick'] = CHECKS['C14']['legs']['quick'] + [{'flavour': 'tsan', 'shards': 2, 'tier_override': 'quick', 'shard_offset': 100, 'timeout': 2400}]
+CHECKS['C14']['legs']['thorough'] = CHECKS['C14']['legs']['thorough'] + [{'flavour': 'tsan', 'shards': 16, 'tier_override': 'quick', 'shard_offset': 100, 'timeout': 2400}]
+CHECKS['C14']['technique'] = CHECKS['C14']['technique'].replace('ThreadSanitizer leg in the thorough tier', 'ThreadSanitizer leg (instrumented std)')
+CHECKS['C14']['level_note'] += ' ThreadSanitizer leg: the concurrent-reader runs repeated in a TSan build with -Zbuild-std; a data-race report ends the worker with exit 66 and is a violation.'
 
 NOT_APPLICABLE = [{'property_id': c, 'reason': 'check not built yet in this session (work in progress, see DESIGN.md)'} for c in ALL if c not in CHECKS]
